@@ -680,6 +680,94 @@ func ruleTypeSwitch(c *RC) *RuleResult {
 			r.fail("recoveryMessage."+g+"/reconstruction", c.Prog.Pos(fn.Decl), g+" "+bad)
 		}
 	}
+	// the wrapper rebuilt around the body: every field of Payload that the encoder writes (and that therefore enters the
+	// hash) is given a value by the maker's literal or by a setter of Payload that the maker or its callers call —
+	// a rebuilt proposal whose envelope differs from the original's hashes differently, and the responses no longer match
+	if pst := c.Prog.Structs["internal/consensus:Payload"]; pst != nil {
+		hashed := map[string]bool{}
+		if enc := c.Prog.ByName["internal/consensus:Payload.EncodeBinary"]; enc != nil {
+			for _, e := range c.exitsOf(enc) {
+				for loc := range e.ReadSeen {
+					if strings.HasPrefix(loc, "recv.") {
+						hashed[strings.TrimPrefix(loc, "recv.")] = true
+					}
+				}
+			}
+		}
+		// setters: methods of Payload writing exactly that field from a parameter
+		setterOf := map[string]string{}
+		for _, fn := range c.Prog.sortedFuncs() {
+			if fn.Pkg.PkgPath != consPath || fn.Recv != "Payload" || len(fn.Params) != 1 {
+				continue
+			}
+			for _, st := range c.A.FnSites[fn] {
+				if st.Kind == "write" && strings.HasPrefix(st.Loc, "recv.") {
+					setterOf[strings.TrimPrefix(st.Loc, "recv.")] = strings.TrimPrefix(fn.Name, "Payload.")
+				}
+			}
+		}
+		for mk := range makers {
+			var lit *ast.CompositeLit
+			ast.Inspect(mk.Decl.Body, func(n ast.Node) bool {
+				if cl, ok := n.(*ast.CompositeLit); ok && lit == nil && namedName(mk.Pkg.TypesInfo.TypeOf(cl)) == "Payload" {
+					lit = cl
+				}
+				return true
+			})
+			if lit == nil {
+				continue // forwards to another maker
+			}
+			set := map[string]bool{}
+			for _, el := range lit.Elts {
+				if kv, ok := el.(*ast.KeyValueExpr); ok {
+					if id, ok := kv.Key.(*ast.Ident); ok {
+						set[id.Name] = true
+					}
+				}
+			}
+			callsSetter := func(name string) bool {
+				found := false
+				for _, fn := range c.Prog.sortedFuncs() {
+					if fn.Pkg.PkgPath != consPath {
+						continue
+					}
+					usesMaker, calls := fn == mk, false
+					ast.Inspect(fn.Decl.Body, func(n ast.Node) bool {
+						if call, ok := n.(*ast.CallExpr); ok {
+							if fo, ok := typeutil.Callee(fn.Pkg.TypesInfo, call).(*types.Func); ok {
+								if t := c.Prog.Funcs[fo.Origin()]; t == mk {
+									usesMaker = true
+								}
+								if fo.Name() == name {
+									calls = true
+								}
+							}
+						}
+						return true
+					})
+					if usesMaker && calls {
+						found = true
+					}
+				}
+				return found
+			}
+			for i := 0; i < pst.NumFields(); i++ {
+				f := pst.Field(i)
+				if !hashed[f.Name()] || f.Embedded() && set[f.Name()] {
+					continue
+				}
+				r.Sites++
+				switch {
+				case set[f.Name()]:
+					r.ok(mk.Name + ": the rebuilt wrapper's " + f.Name() + " is set")
+				case setterOf[f.Name()] != "" && callsSetter(setterOf[f.Name()]):
+					r.ok(mk.Name + ": the rebuilt wrapper's " + f.Name() + " is set through " + setterOf[f.Name()])
+				default:
+					r.fail(mk.Name+"/envelope:"+f.Name(), c.Prog.Pos(lit), "a payload rebuilt from a recovery message leaves the wrapper field "+f.Name()+" at its zero value although the encoder writes it (it enters the hash): for an original with another "+f.Name()+" the rebuilt proposal hashes differently and the rebuilt responses do not match it")
+				}
+			}
+		}
+	}
 	// the rebuilt proposal is stamped with the primary index
 	r.Sites++
 	if fn := c.recoveryImpl("GetPrepareRequest"); fn != nil && len(fn.Params) == 3 {
